@@ -56,15 +56,19 @@ class SymArr:
         return self.at(i)
 
     def _pvc_searchsorted(self, v, side='left'):
-        if side != 'left':
-            raise core.EngineLimit('searchsorted contract: side=left only')
+        if side not in ('left', 'right'):
+            raise core.EngineLimit(f'searchsorted contract: side={side!r}')
         S = self.S
         vid = core.lift(v).id
-        k = S.int(f'searchsorted[{self.name},{vid}]', 0, 12)
+        k = S.int(f'searchsorted[{self.name},{vid},{side}]', 0, 12)
         S.assume(k <= self.length, 'searchsorted result <= len')
-        # a[k-1] < v  when k > 0 ;  v <= a[k]  when k < len
-        S.assume((k <= 0) | (self.at_total(k - 1) < v), 'searchsorted: left neighbour below')
-        S.assume((k >= self.length) | (v <= self.at_total(k)), 'searchsorted: right neighbour not below')
+        if side == 'left':
+            # a[k-1] < v  when k > 0 ;  v <= a[k]  when k < len
+            S.assume((k <= 0) | (self.at_total(k - 1) < v), 'searchsorted: left neighbour below')
+            S.assume((k >= self.length) | (v <= self.at_total(k)), 'searchsorted: right neighbour not below')
+        else:
+            S.assume((k <= 0) | (self.at_total(k - 1) <= v), 'searchsorted(right): left neighbour not above')
+            S.assume((k >= self.length) | (v < self.at_total(k)), 'searchsorted(right): right neighbour above')
         self.index_terms += [k - 1, k]
         return k
 
@@ -122,3 +126,37 @@ def monotone_instances(S, f, terms, what):
                 S.assume((a >= b) | (f(a) < f(b)), f'{what} strictly increasing')
             elif c:
                 S.assume(f(a) < f(b), f'{what} strictly increasing')
+
+
+import numpy as _np
+
+
+class MaskArr(_np.ndarray):
+    """object array whose comparison with a number yields a BOOLEAN mask (each element
+    comparison is decided by the path controller), so that `a[a > 0]` works on symbolic data"""
+
+    def _mask(self, o, op):
+        out = _np.zeros(self.shape, dtype=bool)
+        for idx in _np.ndindex(self.shape):
+            x = _np.ndarray.__getitem__(self, idx)
+            out[idx] = bool(getattr(x, op)(o)) if isinstance(x, Sym) else bool(getattr(float(x), op)(o))
+        return out
+
+    def __gt__(self, o):
+        return self._mask(o, '__gt__')
+
+    def __lt__(self, o):
+        return self._mask(o, '__lt__')
+
+    def __ge__(self, o):
+        return self._mask(o, '__ge__')
+
+    def __le__(self, o):
+        return self._mask(o, '__le__')
+
+
+def mask_array(values):
+    a = _np.empty(len(values), dtype=object)
+    for i, v in enumerate(values):
+        a[i] = v
+    return a.view(MaskArr)
